@@ -97,7 +97,7 @@ func genC19Prog(c *Ctx) c19prog {
 	if w.Chance(1, 3) {
 		intr = "vintr; "
 	}
-	switch w.Draw(16) {
+	switch w.Draw(22) {
 	case 0:
 		return c19prog{Name: "for", Code: fmt.Sprintf("for i [(range %d)] { vt A; %svt B }", n, intr), Intr: intr != ""}
 	case 1:
@@ -128,6 +128,19 @@ func genC19Prog(c *Ctx) c19prog {
 		return c19prog{Name: "each-sleep", Code: fmt.Sprintf("range %d | each {|x| vt A; sleep 0.01; vt B }", n)}
 	case 14:
 		return c19prog{Name: "nested-peach", Code: fmt.Sprintf("peach &num-workers=2 {|x| for j [(range %d)] { vt A }; vw $x } [(range 4)]", n), Bound: 2}
+	case 16:
+		// the handler of an interrupted try must not run any pipeline either
+		return c19prog{Name: "try-catch", Code: fmt.Sprintf("try { for i [(range %d)] { vt A; %svt B } } catch e { vt CATCH; vt CATCH2 }", n, intr), Intr: intr != ""}
+	case 17:
+		return c19prog{Name: "defer", Code: fmt.Sprintf("fn f { defer { vt D }; for i [(range %d)] { vt A; %svt B } }; f; vt AFTER", n, intr), Intr: intr != ""}
+	case 18:
+		return c19prog{Name: "each-list", Code: fmt.Sprintf("each {|x| vt A; %svt B } [(range %d)]", intr, n), Intr: intr != ""}
+	case 19:
+		return c19prog{Name: "nested-closures", Code: fmt.Sprintf("for i [(range %d)] { { { vt A }; { %svt B } } }", n, intr), Intr: intr != ""}
+	case 20:
+		return c19prog{Name: "capture-in-loop", Code: fmt.Sprintf("for i [(range %d)] { var v = (vt A; %sput x); vt B }", n, intr), Intr: intr != ""}
+	case 21:
+		return c19prog{Name: "and-or-if", Code: fmt.Sprintf("for i [(range %d)] { if (and ?(vt A) ?(vt B)) { %svt C } else { vt D } }", n, intr), Intr: intr != ""}
 	default:
 		return c19prog{Name: "while", Code: fmt.Sprintf("var i = 0; while (< $i %d) { vt A; %sset i = (+ $i 1) }", n, intr), Intr: intr != ""}
 	}
